@@ -55,6 +55,9 @@ type VC struct {
 	binderRange bool // `option binder-range`: forallIn binders carry the interval of their guard
 	nameWraps bool
 	binderTyping bool
+	closedMapSlices bool // option closed-map-slices: entry closedness of Mv|...|#arr heaps
+	nilBaseUnwritten bool // option nil-base-unwritten
+	specRange    bool // option spec-range: typing axiom for uninterpreted spec functions of integer type
 	binderFacts [][]string
 	eng       *Engine
 	fn        *ssa.Function
@@ -85,6 +88,7 @@ type VC struct {
 	ufDecl    map[string]bool
 	curPos    token.Pos
 	unfolded  map[string]bool
+	ifaceAsserts []ifaceAssert
 	closures  map[string]*closureInfo
 	callCount map[string]int
 	noFrame   bool
@@ -314,7 +318,29 @@ func (vc *VC) typeTag(t types.Type) string {
 		vc.tagTypes = map[string]types.Type{}
 	}
 	vc.tagTypes[k] = t
+	for _, ia := range vc.ifaceAsserts {
+		vc.ifaceAssertFact(ia, n, t)
+	}
 	return num(int64(n))
+}
+
+// ifaceAssert records an interface-to-interface type assertion x.(I) whose success flag is ok.
+type ifaceAssert struct {
+	x, ok string
+	iface *types.Interface
+}
+
+// ifaceAssertFact: if the dynamic type of x is the concrete type t (tag n), x.(I) succeeds iff x != nil and t implements I.
+func (vc *VC) ifaceAssertFact(ia ifaceAssert, n int, t types.Type) {
+	if _, isIface := under(t).(*types.Interface); isIface {
+		return
+	}
+	tagIs := eq(app("itag", ia.x), num(int64(n)))
+	if types.Implements(t, ia.iface) {
+		vc.assert(implies(and(tagIs, not(eq(ia.x, "0"))), ia.ok))
+	} else {
+		vc.assert(implies(tagIs, not(ia.ok)))
+	}
 }
 
 // canonTag distinguishes named types (unlike canon, which erases names of non-struct types).
@@ -364,7 +390,9 @@ func (vc *VC) heap(st *State, name, sort string) string {
 		if strings.HasPrefix(name, "Ml|") {
 			vc.emit(fmt.Sprintf("(assert (= (select %s 0) 0))", n))
 		}
-		if strings.HasPrefix(name, "Mv|") && refHeapNames[name] && strings.HasPrefix(sort, "(Array Int (Array ") && strings.HasSuffix(sort, " Int))") {
+		// (`option closed-map-slices`: the same entry closedness for the backing arrays of slice-valued map elements,
+		// Mv|map[K][]T|#arr, which the E|/H|/C| cases below already state for slices stored in fields and slices)
+		if strings.HasPrefix(name, "Mv|") && (refHeapNames[name] || (vc.closedMapSlices && strings.HasSuffix(name, "#arr"))) && strings.HasPrefix(sort, "(Array Int (Array ") && strings.HasSuffix(sort, " Int))") {
 			ks := strings.TrimSuffix(strings.TrimPrefix(sort, "(Array Int (Array "), " Int))")
 			a0 := vc.heap(&State{heaps: map[string]string{}}, "$alloc", "Int")
 			vc.emit(fmt.Sprintf("(assert (forall ((qa Int) (qk %s)) (! (=> (< qa %s) (< (select (select %s qa) qk) %s)) :pattern ((select (select %s qa) qk)))))", ks, a0, n, a0, n))
@@ -974,6 +1002,17 @@ func (vc *VC) convert(a TV, t types.Type) TV {
 func (vc *VC) byteChainMod(x string, from, to types.Type) string {
 	tb := under(to).(*types.Basic)
 	bits, signed := intBits(tb)
+	if vc.inBinder > 0 {
+		// under a quantifier x mentions bound variables: a global quotient/remainder pair cannot name it; state the
+		// truncation directly (same value)
+		m := pow2(uint(bits)).String()
+		r := app("mod", x, m)
+		if signed {
+			h := pow2(uint(bits - 1)).String()
+			return ite(lt(r, h), r, minus(r, m))
+		}
+		return r
+	}
 	q := vc.fresh("cq", "Int")
 	r := vc.fresh("cr", "Int")
 	m := pow2(uint(bits)).String()
@@ -1291,6 +1330,23 @@ func (vc *VC) specApp(e *Env, sf *SpecFunc, sig *types.Signature, args []TV, rt 
 		if !vc.ufDecl[fname] {
 			vc.ufDecl[fname] = true
 			vc.emit(fmt.Sprintf("(declare-fun %s (%s) %s)", fname, strings.Join(argSorts, " "), l.Sort))
+			// `option spec-range`: the result of an uninterpreted spec function of integer type lies in the range of that
+			// type for ALL arguments (a typing fact: the symbol stands for a Go function with that result type; its
+			// one-step unfoldings equate it with a body coerced to the same type). Ground applications get the fact
+			// where they are unfolded; applications under a quantifier (bound arguments) need the quantified form.
+			if vc.specRange && len(rls) == 1 && len(argSorts) > 0 {
+				if _, _, ok := intRange(rt); ok {
+					var bs [][2]string
+					var as []string
+					for i, srt := range argSorts {
+						a := fmt.Sprintf("sr_a%d", i)
+						bs = append(bs, [2]string{a, srt})
+						as = append(as, a)
+					}
+					ap := app(fname, as...)
+					vc.emit("(assert " + forall(bs, "(! "+rangeFact(rt, ap)+" :pattern ("+ap+"))") + ")")
+				}
+			}
 		}
 		outs = append(outs, app(fname, argTerms...))
 	}
